@@ -1,0 +1,7 @@
+//go:build verif
+
+package transport
+
+// VerifSetNext sets the allocator's counter so that the verification harness
+// can reach counter values near 2^64 without 2^63 allocations.
+func (a *StreamIDAllocator) VerifSetNext(v uint64) { a.next.Store(v) }
